@@ -6,11 +6,11 @@ PROOF_NOTE = ("Trusted: Lean 4.33 kernel and the axioms printed per theorem (pro
               "translator and harness themselves.")
 CHECKS = {
  "C03": dict(category="proof",
-   text=("Theorem: the ENCINT round trip on the model of read_encint (every legal 1-9 byte coding of every n < 2^63, anywhere in a chunk, decodes to n, consumes exactly its bytes, does not fail). "
-         "The CHM model (headers, PMGL/PMGI directory, system files, reset table / SpanInfo, section 0 and LZX section 1 extraction with the decoder cache) and the LZX model are executable Lean and agree with the "
-         "implementation on generated helpfiles (chunk sizes, densities, index depth, header versions, both ControlData versions, reset-table variants, UTF-8 names) and on the fixtures; "
-         "the implementation is judged against the plan (listing fields, bytes; every member extracted forward and in reverse so decoding restarts at reset points). Header, directory and LZX round trips are not theorems yet."),
-   note=PROOF_NOTE, technique="Lean 4 theorem (ENCINT) + executable model + plan oracle and differential runs"),
+   text=("Theorems: the ENCINT round trip (every legal 1-9 byte coding of every n < 2^63) and C03_headers_roundtrip / C03_open_roundtrip - for every well-formed directory specification (versions 2/3, any header field values, chunk size <= 8192, 1..100000 PMGL chunks holding any entries that fit: names of any length, directory entries, sections 0/1, offsets and lengths < 2^63) "
+         "the model of chmd_read_headers/open() on the specification writer's bytes returns OK with exactly the header fields and, in order, exactly the entries the C keeps as files. The writer is fed to the real chmd_open (family chm.spec-headers). "
+         "Index chunks, system files, reset table / SpanInfo, section 0 and LZX section 1 extraction with the decoder cache are executable Lean and agree with the implementation on generated helpfiles (chunk sizes, densities, index depth, both ControlData versions, reset-table variants incl. table offsets and odd entry sizes, UTF-8 names) and on the fixtures; "
+         "the implementation is judged against the plan (listing fields, bytes; every member extracted forward and in reverse so decoding restarts at reset points)."),
+   note=PROOF_NOTE, technique="Lean 4 theorems (ENCINT; directory listing round trip against a specification writer) + executable model + plan oracle and differential runs"),
  "C15": dict(category="proof",
    text=("Theorems on the model of chmd.c's name comparison: a name compares equal to itself and ASCII letter case is ignored. The binary search over quick-reference entries, the index descent and the chunk cache are "
          "modelled and agree with the implementation on every lookup of generated directories; the implementation is judged against the listing: every listed name and its case variants are found with the listing's "
@@ -34,10 +34,13 @@ CHECKS = {
          "On the implementation every API call's executed control-flow edges are checked against a linear budget in input+output bytes (9x head-room over the measured maximum), with a watchdog, "
          "on malformed, shipped and pathological inputs; that found the cyclic-CHM hang repaired by f3ee904."),
    note=PROOF_NOTE + " Wall-clock time is not covered; the budget constants are calibrated, not derived.", technique="Lean 4 termination measures + instrumented edge budget and watchdog on the implementation"),
- "C09": dict(category="fault_enumeration",
-   text=("Every single failure of alloc/open/read/write/seek (sampled in the quick tier, every call index in the thorough tier) in complete API sessions of all five formats over well-formed and malformed archives: "
-         "the instrumented system's ledger must be empty after close+destroy and no object may be released twice or used after release. A Lean effect model of the SZDD API with the ledger theorem is under construction and not claimed yet."),
-   note="Trusted: the harness's instrumented mspack_system (ledger + monitor); the enumeration covers the sampled scenarios only.", technique="single-fault enumeration under an instrumented mspack_system with allocation/handle ledger"),
+ "C09": dict(category="proof",
+   text=("Theorems on effect models of the SZDD and KWAJ decompressors over an instrumented mspack_system (ledger of live allocations and handles, fault plan, misuse monitor): for every client program (create; any list of decompress / open + extracts + close; destroy), every file content and every fault plan (any set of failing alloc/open/read/write/seek calls) the ledger after the program equals the ledger before it and no misuse is recorded "
+         "(C09_szdd_*, C09_kwaj_*; KWAJ's LZH and MSZIP decoder bodies enter through a frame law: they only read and write on the two handles they get). The effect models are replayed against the implementation on every szdd/kwaj run of the fault sweep (mspack-driver --sys). "
+         "CAB, CHM and OAB: every single failure of alloc/open/read/write/seek (sampled in the quick tier, exhaustive on small directed scenarios; every call index in the thorough tier) in complete API sessions over well-formed and malformed archives: "
+         "the instrumented system's ledger must be empty after close+destroy and no object may be released twice or used after release."),
+   note=PROOF_NOTE + " The effect models are hand-written and validated by replaying every szdd/kwaj fault run on them; KWAJ's LZH/MSZIP decoder bodies are a hypothesis (frame law); for CAB/CHM/OAB the harness's instrumented mspack_system (ledger + monitor) is the reference and the enumeration covers the sampled scenarios only.",
+   technique="Lean 4 theorems on effect models over an instrumented system (invariants Frame/Opened, induction over client programs) + --sys replay + single-fault enumeration with allocation/handle ledger"),
  "C10": dict(category="proof",
    text=("(c) proved on the header models for every file content: CAB, SZDD and KWAJ files of at least header length with wrong signature bytes are refused with MSPACK_ERR_SIGNATURE (CHM checked on the implementation). "
          "(a) last_error synchronisation and (b) single host failures are fault enumeration on the implementation: each faulted call must report failure or reproduce the failure-free result exactly. "
@@ -68,7 +71,8 @@ CHECKS = {
          "both ring start positions and any position of the stream in a file, the decoder returns OK and has written exactly the reference expansion; C05_szdd_roundtrip - a well-formed SZDD file is opened with exactly its header values "
          "(format, missing character, length) and decompress writes exactly the expansion. The models of szddd.c, kwajd.c (headers, all five methods incl. LZH and MSZIP) and lzssd.c are executable Lean and agree with the implementation on generated "
          "files (both SZDD variants, all 64 KWAJ header-flag combinations, all four LZH length encodings, shortest-possible LZH tails) and on the shipped fixtures; the implementation is judged against the plan. "
-         "KWAJ headers and the LZH / MSZIP-KWAJ / xor payload round trips are not theorems."),
+         "KWAJ headers and the LZH / MSZIP-KWAJ / xor payload round trips are not theorems."
+         " Also proved: C05_szdd_qbasic_roundtrip and C05_kwaj_plain_roundtrip (KWAJ methods 0/1 with all 16 combinations of the length/unknown/extra-text fields: open() reports exactly the fields, decompress() writes exactly the data); the LZSS and KWAJ specification writers are fed to the real library (lzss.spec, kwaj.spec)."),
    note=PROOF_NOTE, technique="Lean 4 theorems (token-level specification, induction over groups of eight with a buffer-refill invariant) + differential execution of the models against the implementation + plan oracle"),
  "C07": dict(category="proof",
    text=("CAB: theorems, generic over the stream decoders' counting law, that extract never hands more than the declared length to the output (any input, strict or salvage, any cached state) "
@@ -76,15 +80,16 @@ CHECKS = {
          "CHM and OAB have no theorem yet. Everything is validated by the written-vs-declared oracle on the implementation (well-formed, malformed, fixtures, short writes, salvage) and model agreement."),
    note=PROOF_NOTE, technique="Lean 4 theorems (case analysis over cabd_extract's phases + induction for the stored decoder) + written/declared/status oracle on the implementation"),
  "C08": dict(category="proof",
-   text=("CAB: theorem that whenever the cached decoder is not re-usable for a request (other folder, backward seek, dead decoder) extract behaves exactly like a fresh instance. "
-         "Forward re-use needs the decoders' chunking law (not yet proved) and is covered by the oracle: in random histories (repetition, interleaved archives, damaged folders) over CAB sets and CHM files, "
+   text=("CAB: theorems that whenever the cached decoder is not re-usable for a request (other folder, backward seek, dead decoder) extract behaves exactly like a fresh instance, and C08_stored_any_order - for a stored folder ANY list of extract() calls on members inside the folder's data (forward through the cached decoder, backward through a rebuilt one, repeated) returns OK with exactly each member's bytes, the fresh-instance result. "
+         "For MSZIP/LZX/Quantum forward re-use needs the decoders' chunking law (not proved) and is covered by the oracle: in random histories (repetition, interleaved archives, damaged folders, two cabinets with a damaged second one) over CAB sets and CHM files, "
          "every call is compared with the same member on a fresh decompressor; plus model/implementation agreement per call."),
-   note=PROOF_NOTE, technique="Lean 4 theorem on the cache decision of cabd_extract + history-vs-fresh oracle + differential runs"),
+   note=PROOF_NOTE, technique="Lean 4 theorems (cache decision of cabd_extract; invariant over call sequences for stored folders) + history-vs-fresh oracle + differential runs"),
  "C02": dict(category="proof",
    text=("Theorems (all file contents, all parameter settings, all split-block chains): the CAB block reader never reads past d->input and every block it delivers leaves room for "
          "the Quantum trailer byte, against the buffer and limit constants extracted from today's cab.h; array dimensions of the decoder tables are those the models assume. "
          "Decoder-internal bounds, CHM/KWAJ/OAB parsing and call-sequence safety are validated, not proved: ASan+UBSan runs over malformed variants of generated archives of all five "
-         "formats, the shipped crashers and guard-directed constructions, with model/implementation agreement on statuses. Found and repaired on the way: c13e5b8, 004b113, a66a89b."),
+         "formats, the shipped crashers and guard-directed constructions, with model/implementation agreement on statuses. Found and repaired on the way: c13e5b8, 004b113, a66a89b."
+         " Also: make_decode_table's acceptance rule (model Huff.accepts) is compared with the three instantiations on the ten shapes their callers use, and the same code-length vectors are fed through MSZIP and KWAJ LZH streams; found and repaired: 797f74d (use-after-free after joining a multi-folder cabinet with a PREV_AND_NEXT entry)."),
    note=PROOF_NOTE + " Sanitizers see heap/stack/global object bounds, not sub-object overflows inside one allocation.",
    technique="Lean 4 theorems on the block reader/feeder model + sanitizer-instrumented differential fuzzing of malformed inputs"),
  "C01": dict(category="proof",
@@ -92,30 +97,34 @@ CHECKS = {
          "deflate length/distance tables, bit-length order, LSB masks) equals its closed form from the format documents, and the CAB record layout constants are those the "
          "container model hard-codes. The container model (headers, block reader with reserves/split blocks/checksums, feeder, extract, merge) and the stored and MSZIP decoders "
          "are executable Lean and agree with the implementation on every generated plan (all methods, block types, windows, reserves, split sets, parameter settings, both systems); "
-         "the implementation is judged against the plan itself (listing and bytes). Bit-level decoder round trips are not theorems yet."),
+         "the implementation is judged against the plan itself (listing and bytes). Bit-level decoder round trips are not theorems yet."
+         " Since then proved: C01_headers_roundtrip (cabd_read_headers on the specification writer's bytes lists exactly the specified folders and files, any prefix, strict and salvage) and C01_stored_extract (for every list of well-formed CFDATA blocks of a stored folder, every member, every DECOMPBUF, a first extract() returns OK and exactly the member's bytes); the writer is itself fed to the real cabd_open."),
    note=PROOF_NOTE + " Quantum's arithmetic coder has no independent specification (the generator's encoder inverts qtmd.c).",
    technique="Lean 4 (decide +kernel over regenerated tables; executable model) + plan-oracle and model/implementation differential runs"),
  "C18": dict(category="proof",
    text=("Theorems on the CAB model, for every file content: a listing accepted in strict mode is accepted identically in salvage mode; a data block the strict reader "
          "delivers is delivered identically under any combination of ignore-checksum / ignore-blocksize. The lift through feeder, decoders and extract is checked by "
          "model/implementation agreement and by the oracle: identical listing and bytes under all four SALVAGE x FIXMSZIP combinations for strict-valid cabinets; for the two listed "
-         "defect classes salvage lists exactly the remaining members / extracts the original bytes."),
+         "defect classes salvage lists exactly the remaining members / extracts the original bytes."
+         " For stored folders the lift is proved: C18_stored_params_irrelevant - any call sequence gives identical results under any two parameter records."),
    note=PROOF_NOTE, technique="Lean 4 theorems (monotonicity of header and block readers in the relaxation flags, by induction) + differential runs over the four parameter combinations"),
  "C14": dict(category="proof",
    text=("Theorems on the model of cabd_find: the result is independent of the search-buffer size (every n>=1), the restart logic always advances "
-         "(termination), and every reported cabinet parses as a cabinet at its reported offset (no false positives). Completeness (every planted cabinet is found) "
-         "is not yet a theorem: it is checked by the implementation-side oracle and model/implementation agreement on generated files with partial and fake signatures; "
+         "(termination), every reported cabinet parses as a cabinet at its reported offset (no false positives), and completeness - C14_finds_planted: a cabinet behind any bytes that do not contain the signature MSCF (any prefix of it allowed, also directly in front of the cabinet) with plausible length fields is the first cabinet search() reports, any buffer size, strict or salvage. "
+         "Several cabinets and look-alike headers in the filler are checked by the implementation-side oracle and model/implementation agreement on generated files with partial and fake signatures; "
          "that oracle found the defect repaired by commit 586d1d8 (cabinet preceded by M/MS/MSC)."),
    note=PROOF_NOTE, technique="Lean 4 theorems by functional induction over the scanner model + differential runs (search results) + planted-cabinet oracle"),
  "C19": dict(category="proof",
    text=("Mechanism-level theorem: the inventory of writable static objects regenerated from today's objects (nm) and sources is exactly four never-written objects, "
          "and any interleaving of per-instance operation lists gives each instance its solo results (generic theorem, instantiated for the CAB model). "
-         "Data races proper are outside a Lean model: ThreadSanitizer runs with 2-16 threads on own instances compare concurrent with solo results."),
+         "Data races proper are outside a Lean model: ThreadSanitizer runs with 2-16 threads on own instances compare concurrent with solo results."
+         " Also proved against the regenerated inventory: every symbol the library's objects import from outside the library is in an explicit list of libc entry points without process-wide mutable state (no setlocale, strtok, rand, ...)."),
    note=PROOF_NOTE + " The C memory model and thread schedules are not modelled.", technique="Lean 4 (decide over regenerated inventory; induction over interleavings) + TSan differential runs"),
  "C12": dict(category="proof",
    text=("CAB: theorems over all data/positions/values/seeds that any single-byte change of a checksummed block's payload, of either size-field byte, "
          "or of the stored checksum makes cabd_sys_read_block's test fail (or turns the stored checksum into 0 = 'no checksum', data untouched); "
          "crc32_table proved equal to the reflected 0xEDB88320 table. Tied to the code by prim-level and extract-level differential runs on every byte position of small cabinets; "
-         "OAB part is partial by arithmetic necessity (CRC collisions)."),
+         "OAB part is partial by arithmetic necessity (CRC collisions)."
+         " Lifted to the API for stored folders: C12_stored_extract_refused / C12_extract_payload_byte / C12_extract_usize_byte - intact blocks, then a block failing the reader's test: strict-mode extract() of any member returns OK with exactly the original bytes or an error."),
    note=PROOF_NOTE, technique="Lean 4 theorems (XOR-linearity + injectivity of the word packers, functional induction) + differential model/implementation runs on exhaustively corrupted blocks"),
 }
